@@ -474,6 +474,7 @@ def smaxOf (cg : CGOut) (procs : List PInfo) : Nat :=
 def mkG (pk : Bool) (P : X.Program) (st : Stages) (img : Image) (fuel : Nat) (procs : List PInfo) : GCtx :=
   { env := v1Env st img, cg := st.cg, xc := v2Xc P fuel,
     consts := (procs.getLast?.map fun pi => pi.gs2.constMap).getD [],
+    strs := (procs.getLast?.map fun pi => pi.gs2.strs).getD [],
     procs := procs, gnames := v2Gnames P.globals, pnames := P.procs.map (·.name),
     gloc := v2Gloc st.cg (v1Env st img),
     spv := (spValue st.cg.globalsOffset).toNat, smax := smaxOf st.cg procs,
@@ -524,7 +525,7 @@ def procCheck (G : GCtx) (pi : PInfo) : Bool :=
   atB G.env.ds pi.iPro (proDirs pi.kind pi.p.name (G.S pi)) && atB G.env.ds (G.iBody pi) (lowerCode G.cg pi.code) &&
   atB G.env.ds (G.iEpi pi) (G.epi pi) &&
   decide (pi.gs2.size ≤ G.S pi) && decide (pi.p.locals.length ≤ pi.gs1.offset) &&
-  pi.gs2.constMap.all (fun e => G.consts.contains e) && decide (G.S pi ≤ G.smax) &&
+  (pi.gs2.constMap.all (fun e => G.consts.contains e) && pi.gs2.strs.all (fun e => G.strs.contains e)) && decide (G.S pi ≤ G.smax) &&
   okS5 G.pk G.pnames G.xc.impure G.rho pi.p.body && pi.p.formals.all isVAFormal && pi.p.locals.all isVarDecl &&
   G.procs.all (fun pj =>
     match G.cg.tbl.lookup pi.p.name pj.p.name with
@@ -604,7 +605,7 @@ theorem ok_of_checks (G : GCtx) (imgWords : Nat)
        atB G.env.ds pi.iPro (proDirs pi.kind pi.p.name (G.S pi)) = true ∧
        atB G.env.ds (G.iBody pi) (lowerCode G.cg pi.code) = true ∧ atB G.env.ds (G.iEpi pi) (G.epi pi) = true ∧
        pi.gs2.size ≤ G.S pi ∧ pi.p.locals.length ≤ pi.gs1.offset ∧
-       (∀ e ∈ pi.gs2.constMap, G.consts.contains e = true) ∧ G.S pi ≤ G.smax ∧
+       ((∀ e ∈ pi.gs2.constMap, G.consts.contains e = true) ∧ (∀ e ∈ pi.gs2.strs, G.strs.contains e = true)) ∧ G.S pi ≤ G.smax ∧
        okS5 G.pk G.pnames G.xc.impure G.rho pi.p.body = true ∧ pi.p.formals.all isVAFormal = true ∧ pi.p.locals.all isVarDecl = true) ∧
       ((∀ pj ∈ G.procs, (match G.cg.tbl.lookup pi.p.name pj.p.name with
           | .ok sym => decide ((sym.type = .func) ↔ (pj.p.isFunc = true))
@@ -669,9 +670,23 @@ theorem ok_of_checks (G : GCtx) (imgWords : Nat)
     gen := hgen
     size_ok := fun pi hpi => (hpc pi hpi).1.2.2.2.2.2.2.1
     nl_ok := fun pi hpi => (hpc pi hpi).1.2.2.2.2.2.2.2.1
-    consts_ok := fun pi hpi e he => by
-      have := (hpc pi hpi).1.2.2.2.2.2.2.2.2.1 e he
-      simpa using this
+    consts_ok := fun pi hpi x hx => by
+      obtain ⟨h1, h2⟩ := (hpc pi hpi).1.2.2.2.2.2.2.2.2.1
+      cases x with
+      | const v l =>
+        rw [const_mem_items] at hx
+        have := h1 _ hx
+        simp only [List.contains_iff_mem] at this
+        simp only [GCtx.items, List.mem_append, List.mem_map, PoolItem.const.injEq, Prod.exists, reduceCtorEq, and_false,
+          exists_false, or_false]
+        exact ⟨v, l, this, rfl, rfl⟩
+      | str l bs =>
+        rw [str_mem_items] at hx
+        have := h2 _ hx
+        simp only [List.contains_iff_mem] at this
+        simp only [GCtx.items, List.mem_append, List.mem_map, PoolItem.str.injEq, Prod.exists, reduceCtorEq, and_false,
+          exists_false, false_or]
+        exact ⟨l, bs, this, rfl, rfl⟩
     smax_ok := fun pi hpi => (hpc pi hpi).1.2.2.2.2.2.2.2.2.2.1
     body_ok := fun pi hpi => (hpc pi hpi).1.2.2.2.2.2.2.2.2.2.2.1
     pure_ok := hpure
